@@ -338,15 +338,7 @@ def check(ctx):
         check_const_transmute(ctx, cfg)
         # tiling instances (shared with C09)
         n = 0
-        n += c09.check_lengthen(ctx, cfg, "append", True)
-        n += c09.check_lengthen(ctx, cfg, "prepend", False)
-        n += c09.check_reads(ctx, cfg, c09.SEQ % ("Shorten<$0>", "pop_back"), "(self[0,N-1), self[N-1])", lambda a, S, N: [(Poly.const(0), 0), ((N - 1) * S, 1)])
-        n += c09.check_reads(ctx, cfg, c09.SEQ % ("Shorten<$0>", "pop_front"), "(self[0], self[1,N))", lambda a, S, N: [(Poly.const(0), 0), (S, 1)])
-        n += c09.check_reads(ctx, cfg, c09.SEQ % ("Split<$0,$2>", "split"), "(self[0,K), self[K,N))",
-                             lambda a, S, N: [(Poly.const(0), 0), (a.tenv.length({"k": "param", "n": a.body["generics"][2]["n"]}) * S, 1)])
-        n += c09.check_concat(ctx, cfg)
-        n += c09.check_unchecked(ctx, cfg, "remove_unchecked")
-        n += c09.check_unchecked(ctx, cfg, "swap_remove_unchecked")
+        n += c09.check_owned_ops(ctx, cfg, rule="C03.T")
         n += check_assume_init(ctx, cfg)
         ctx.floor("C03.T", "tiling / whole-value reinterpretation instances (%s)" % cfg, n, 11)
         p = c04.check_closures(ctx, cfg, want_normal=True, rule_p="C03.P")
